@@ -170,6 +170,8 @@ def lean_denote(ctx, call, solved, args):
     fam = call["family"]
     if not (fam == "id" or (fam == "elementwise" and call["op"] in LEAN_EW)):
         return None
+    if fam == "elementwise" and len(args) != 2:
+        return None      # the driver's integer interpretation of add/multiply/... is binary; n-ary forms are covered by C01's oracle
     if any(np.asarray(a).dtype.kind not in "iu" for a in args):
         return None
     ei, eo = solved
